@@ -318,8 +318,74 @@ def baton(F, R, ver):
          'a parked sender awaits a bare %s: if it is woken (value delivered) and its future is dropped before it resumes, the freed slot is never offered to the next waiter (no Drop-based baton)' % inner)
 
 
+def wakes_only_where_the_window_opens(F, R, ver):
+    """Who may wake: a parked sender is taken off `waiters` and signalled only inside a function of the connection state that
+    itself opens the window (removes an outstanding entry, raises the cap, lifts write back-pressure). A wake-up from anywhere
+    else hands out a slot that nobody freed - the woken sender does not look at the window again (D20), so the window is
+    exceeded by one for each such wake-up. Counted over every body of the version, helpers spliced into their callers."""
+    openers = set()
+    for b in F.find(r'^%s::shared::MqttShared::[a-z_]+$' % ver):
+        if calls_on_field(b, r'VecDeque::<T, A>::(pop_front|pop_back)$', 'inflight') or b.path.endswith('::disable_wr_backpressure') \
+                or any((call_recv_path(b, t, 0) or ('',))[-1] == 'cap' for bi, t in b.calls_to(r'^std::cell::Cell::<T>::set$')):
+            openers.add(b.path)
+    n = 0
+    for b in F.find(r'^(<)?%s::' % ver):
+        pops = calls_on_field(b, r'VecDeque::<T, A>::(pop_front|pop_back|remove|swap_remove_front|swap_remove_back)$', 'waiters')
+        if not pops:
+            continue
+        sends = [x for x in waiter_sends(b) if x[2] and any('pop_' in y or 'remove' in y for y in x[2])]
+        if not sends:
+            continue
+        n += 1
+        topf = re.sub(r'(::\{(closure|inl)#\d+\})+$', '', b.path)
+        R.ob('C13.wake-count', '%s|%s|wakes-a-parked-sender-only-where-the-window-opens' % (ver, topf), topf in openers,
+             'a parked sender is woken in a function that frees no window slot itself (no outstanding entry removed, cap not raised, back-pressure not lifted): the woken sender transmits without looking at the window again, one more packet than the limit is in flight', b.loc(sends[0][0]))
+    R.floor('C13.wake-count', '%s functions that wake parked senders' % ver, n, 3)
+
+
+def backpressure_notified(F, R):
+    """The io dispatcher tells the connection state about write back-pressure through Control::wr(true) / wr(false); senders
+    parked by wr(true) resume only on wr(false). Typestate pairing in Dispatcher::poll: every store `st = Processing` made in
+    the Backpressure state is followed on every way out (return or next loop round) by control.call(Control::wr(false)), and
+    every store `st = Backpressure` by wr(true) - or the notification was sent before the store. A way out in between (a
+    `ready!` that returns Pending) leaves WRB_ENABLED set for ever on a healthy connection."""
+    import c07
+    poll = F.one(r'^<io::Dispatcher<P, C, U, E> as std::future::Future>::poll$')
+    head = c07.loop_head(F, poll)
+    arms = variant_edges(F, poll, c07.ST)
+    regions = {v: arm_region(poll, e) for v, e in arms.items() if not v.endswith('?')}
+    wr = {True: set(), False: set()}
+    for bi, t, kind in c07.control_calls(poll):
+        if 'wr' not in kind.split('+'):
+            continue
+        for l in Origin(poll).of_operand(t['args'][1]):
+            if l[0] == 'call' and l[1].startswith('control::Control') and l[1].endswith('::wr') and isinstance(l[2], int):
+                v = const_val(poll.blocks[l[2]]['term']['args'][0]) if poll.blocks[l[2]]['term'].get('args') else None
+                if v in (0, 1):
+                    wr[bool(v)].add(bi)
+    n = 0
+    for bi, var, st in c07.state_stores(poll):
+        src = [v for v in regions if bi in regions[v]]
+        if (src, var) == (['Backpressure'], 'Processing'):
+            want = False
+        elif (src, var) == (['Processing'], 'Backpressure'):
+            want = True
+        else:
+            continue
+        n += 1
+        notes = wr[want]
+        before = any(poll.dominates(x, bi) and x in regions[src[0]] for x in notes)
+        out = (set(poll.returns()) | {head}) & poll.reachable_after(bi, avoid=notes)
+        R.ob('C13.control-order', 'io::Dispatcher::poll|%s->%s|control-notified-wr(%s)' % (src[0], var, str(want).lower()), bool(notes) and (before or not out),
+             'the dispatcher changes its back-pressure state (%s -> %s) and can leave the poll round without Control::wr(%s): the connection state keeps the old back-pressure flag, parked senders never resume' % (src[0], var, str(want).lower()),
+             poll.loc(sorted(out)[0]) if out else poll.loc(bi))
+    R.floor('C13.control-order', 'back-pressure state changes in Dispatcher::poll', n, 2)
+
+
 def run(F, R):
+    backpressure_notified(F, R)
     for ver in ('v3', 'v5'):
+        wakes_only_where_the_window_opens(F, R, ver)
         wake_checked(F, R, ver)
         every_opening_wakes(F, R, ver)
         park_only_when_closed(F, R, ver)
